@@ -755,6 +755,85 @@ pub fn run(tier: &str) -> i32 {
             }
         }
     }
+    // ---- (3c) every violation on a decoder object that was used before ------------------------
+    // histories: each raw targeted violation, alone and after a valid dynamic block (so that tables
+    // of a successfully decoded block *and* whatever the rejected header left behind are in the
+    // object); then init(); probes: each raw targeted violation and three valid streams (fixed,
+    // dynamic, stored first). The verdict must be the one for a new decoder.
+    let mut acc3c = Acc::default();
+    {
+        use crate::gen::{dyn_spec_for, CodeShape};
+        let raw_viol: Vec<(String, Vec<u8>)> = targeted.iter().filter(|t| !t.2).map(|t| (t.0.clone(), t.1.clone())).collect();
+        let toks = [Token::Lit(b'q'), Token::Lit(b'r'), Token::Match { len: 4, dist: 2 }, Token::Match { len: 3, dist: 1 }];
+        let dynpre = {
+            let spec = dyn_spec_for(&toks, CodeShape::Flat, CodeShape::Flat).unwrap();
+            let mut b = StreamBuilder::new(None);
+            b.dynamic(&spec, &toks, false);
+            b.finish_with_raw_tail(&[]).0
+        };
+        let mut hists: Vec<(String, Vec<u8>)> = vec![];
+        for (name, bytes) in raw_viol.iter() {
+            hists.push((format!("history:{}", name), bytes.clone()));
+            let mut both = dynpre.clone();
+            both.extend_from_slice(bytes);
+            hists.push((format!("history:dyn-then-{}", name), both));
+        }
+        let mut probes: Vec<(String, Vec<u8>, bool)> = raw_viol.iter().map(|(n, b)| (n.clone(), b.clone(), false)).collect();
+        for (i, name) in ["valid-fixed-first", "valid-dynamic-first", "valid-stored-first"].iter().enumerate() {
+            let mut b = StreamBuilder::new(None);
+            match i {
+                0 => {
+                    b.fixed(&toks, true);
+                }
+                1 => {
+                    let spec = dyn_spec_for(&toks, CodeShape::ChainDeep(9), CodeShape::Flat).unwrap();
+                    b.dynamic(&spec, &toks, true);
+                }
+                _ => {
+                    b.stored(b"stored", false).fixed(&toks, true);
+                }
+            }
+            probes.push((name.to_string(), b.finish().bytes, true));
+        }
+        let items: Vec<(usize, usize)> = (0..hists.len()).flat_map(|h| (0..probes.len()).map(move |p| (h, p))).collect();
+        let accs = par_for(items.len(), Acc::default, |ix, acc| {
+            watchdog::tick(ix as u64, 4);
+            let (hi, pi) = items[ix];
+            let (hname, h) = &hists[hi];
+            let (pname, p, valid) = &probes[pi];
+            for cuts in [vec![], (1..p.len()).collect::<Vec<usize>>()] {
+                acc.evals += 1;
+                let r = guarded(|| {
+                    run_cuts_with(p, Mode::Flat, 600, 0, &cuts, false, 0xC3, |d| {
+                        let mut scratch = vec![0u8; 600];
+                        let _ = miniz_oxide::inflate::core::decompress(d, h, &mut scratch, 0, F_FLAT);
+                        d.init();
+                    })
+                });
+                let rp = json!({"reuse": true, "history_hex": hex(h), "input_hex": hex(p), "bytewise": !cuts.is_empty(), "history": hname, "probe": pname});
+                match r {
+                    Err(pn) => rep.violation("C04/panic/reused-decoder", format!("panic {} :: [{}] then [{}]", pn, hname, pname), rp),
+                    Ok(r) => {
+                        let done = r.status == TINFLStatus::Done;
+                        if done && !*valid {
+                            rep.violation(&format!("C04/accepts-invalid/reused-decoder/{}", pname), format!("Done on an invalid stream [{}] decoded by an object that had decoded [{}] and was re-initialised", pname, hname), rp);
+                        } else if !done && *valid {
+                            rep.violation(&format!("C04/rejects-valid/reused-decoder/{}", pname), format!("{} on a valid stream [{}] decoded by an object that had decoded [{}] and was re-initialised", status_name(r.status), pname, hname), rp);
+                        } else {
+                            *acc.classes.entry(if done { "reused-done-valid" } else { "reused-invalid-rejected" }).or_insert(0) += 1;
+                        }
+                    }
+                }
+            }
+        });
+        for a in accs {
+            acc3c.evals += a.evals;
+            for (k, v) in a.classes {
+                *acc3c.classes.entry(k).or_insert(0) += v;
+            }
+        }
+        rep.set("reused_decoder_history_probe_pairs", json!(items.len()));
+    }
     // ---- (3b) the same violations late in a stream -----------------------------------------------
     // after 40 000 / 70 000 bytes of valid stored-block output (beyond the 32 KiB window and beyond
     // the largest encodable distance), with garbage and with all-zero continuations, in flat
@@ -788,7 +867,7 @@ pub fn run(tier: &str) -> i32 {
     let mut distinct = 0usize;
     let mut prefix_checks = acc3.prefix_checks;
     let mut reasons: BTreeSet<&'static str> = acc3.invalid_reasons.clone();
-    for a in accs1.iter().chain(accs2.iter()).chain(accs3b.iter()) {
+    for a in accs1.iter().chain(accs2.iter()).chain(accs3b.iter()).chain(std::iter::once(&acc3c)) {
         evals += a.evals;
         for (k, v) in &a.classes {
             *classes.entry(k).or_insert(0) += v;
@@ -827,6 +906,18 @@ pub fn run(tier: &str) -> i32 {
 }
 
 pub fn replay(v: &Value) -> Option<String> {
+    if v.get("reuse").is_some() {
+        let h = unhex(v["history_hex"].as_str()?);
+        let p = unhex(v["input_hex"].as_str()?);
+        let cuts: Vec<usize> = if v["bytewise"].as_bool()? { (1..p.len()).collect() } else { vec![] };
+        let r = run_cuts_with(&p, Mode::Flat, 600, 0, &cuts, false, 0xC3, |d| {
+            let mut scratch = vec![0u8; 600];
+            let _ = miniz_oxide::inflate::core::decompress(d, &h, &mut scratch, 0, F_FLAT);
+            d.init();
+        });
+        let valid = matches!(ref_inflate(&p, &Opts::raw()).verdict, Verdict::Complete);
+        return if (r.status == TINFLStatus::Done) != valid { Some(format!("reused decoder: {} on a stream the reference calls {}", status_name(r.status), if valid { "valid" } else { "invalid" })) } else { None };
+    }
     if v.get("wrapper").is_some() {
         let d = unhex(v["input_hex"].as_str()?);
         let mut acc = Acc::default();
